@@ -574,7 +574,7 @@ def c04_cases(tier, seed):
 
 PROPS["C04"] = {
     "theorems": ["C04_name_first_letter_only", "C04_plain_name_no_argument", "C04_namespaced_argument", "C04_show_is_vShow",
-                 "C04_custom_resolved_by_name", "C04_expression_value", "C04_frame", "C04_html_sets_innerHTML", "C04_text_sets_textContent"],
+                 "C04_custom_resolved_by_name", "C04_expression_value", "C04_array_argument_keeps_suffix_modifiers", "C04_frame", "C04_html_sets_innerHTML", "C04_text_sets_textContent"],
     "cases": c04_cases,
     "post": literal_roundtrip_post,
     "explanation": "oracle: the runtime directive bindings (definition, value, argument, modifiers) denoted by every v-name/vName attribute equal those evaluated from the second argument of withDirectives in the real output; absent values, empty arrays and holes are outside the quantifier (C07/C08)",
@@ -696,7 +696,7 @@ PROPS["C05"] = {
     "extra": c05_extra,
     "theorems": ["C05_select", "C05_textarea", "C05_input_checkbox", "C05_input_radio", "C05_input_other_static", "C05_input_no_type",
                  "C05_input_dynamic_type", "C05_listener_assigns_target", "C05_component_default", "C05_component_modifiers",
-                 "C05_component_static_arg", "C05_element_binding", "C05_models_sequence", "C05_models_entry_plain", "C05_models_entry_any", "C05_models_entry_underscore"],
+                 "C05_component_static_arg", "C05_element_binding", "C05_models_sequence", "C05_models_entry_plain", "C05_models_entry_any", "C05_models_entry_underscore", "C05_array_argument_keeps_suffix_modifiers"],
     "cases": c05_cases,
     "explanation": "oracle: on every element carrying v-model(s) the denoted props (value prop, modifiers prop, onUpdate listener assigning to the target) and directive bindings (vModelText/Checkbox/Radio/Select/Dynamic by host and type) equal those evaluated from the real output; v-models is expanded to the same-order v-model sequence in the denotation",
 }
